@@ -247,24 +247,38 @@ fn run_tree(t: &TreeSpec, ctx: &Ctx, info: &mut CaseInfo) -> Result<(), Failure>
         vec![],
         Some(vec!["c0", "c1"]),
     );
-    let mut es = Box::new(EStore::new(sch, None));
     let vows: Vec<jbk::Vow<jbk::EntryIdx>> = (0..n).map(|_| jbk::Vow::new(jbk::EntryIdx::from(0))).collect();
     let bound_of: Vec<jbk::Bound<jbk::EntryIdx>> = vows.iter().map(|v| v.bind()).collect();
     let mut vows: Vec<Option<jbk::Vow<jbk::EntryIdx>>> = vows.into_iter().map(Some).collect();
     let mut handles: Vec<(usize, jbk::Bound<jbk::EntryIdx>)> = vec![];
-    for node in &order {
-        let mut hm: HashMap<&'static str, jbk::Value> = HashMap::new();
-        match t.root_plain {
-            Some(k) if parent[*node] == *node => hm.insert("c0", jbk::Value::Unsigned(k as u64)),
-            _ => hm.insert("c0", jbk::Value::UnsignedWord(bound_of[parent[*node]].clone().into())),
-        };
-        hm.insert("c1", jbk::Value::Unsigned(1000 + *node as u64)); // the name: unique
-        hm.insert("c2", jbk::Value::Unsigned(*node as u64)); // the identity
-        let e = EntryType::new_from_schema_idx(&es.schema, vows[*node].take().unwrap(), None, hm);
-        handles.push((*node, es.add_entry(e)));
-    }
     let mut dp = jbk::creator::DirectoryPackCreator::new(jbk::PackId::from(0), crate::gen::vendor(), Default::default());
-    let sid = dp.add_entry_store(es);
+    // every second tree is kept in a store of BOXED entries (`EntryStore<_, _, Box<BasicEntry>>`, what an
+    // application with several entry types behind one trait object uses): the box forwards to the entry
+    let boxed = n % 2 == 1;
+    macro_rules! fill {
+        ($es:ident, $wrap:expr) => {{
+            for node in &order {
+                let mut hm: HashMap<&'static str, jbk::Value> = HashMap::new();
+                match t.root_plain {
+                    Some(k) if parent[*node] == *node => hm.insert("c0", jbk::Value::Unsigned(k as u64)),
+                    _ => hm.insert("c0", jbk::Value::UnsignedWord(bound_of[parent[*node]].clone().into())),
+                };
+                hm.insert("c1", jbk::Value::Unsigned(1000 + *node as u64)); // the name: unique
+                hm.insert("c2", jbk::Value::Unsigned(*node as u64)); // the identity
+                let e = EntryType::new_from_schema_idx(&$es.schema, vows[*node].take().unwrap(), None, hm);
+                handles.push((*node, $es.add_entry($wrap(e))));
+            }
+            dp.add_entry_store($es)
+        }};
+    }
+    let sid = if boxed {
+        info.class("tree:boxed-entries");
+        let mut es = Box::new(jbk::creator::EntryStore::<&'static str, &'static str, Box<EntryType>>::new(sch, None));
+        fill!(es, Box::new)
+    } else {
+        let mut es = Box::new(EStore::new(sch, None));
+        fill!(es, std::convert::identity)
+    };
     dp.create_index("tree", Default::default(), 0.into(), sid, (n as u32).into(), jbk::EntryIdx::from(0).into());
     let path = ctx.path("tree.jbkd");
     let mut file = std::fs::OpenOptions::new().read(true).write(true).create(true).truncate(true).open(&path).unwrap();
@@ -360,7 +374,7 @@ impl Property for C15 {
     const ID: &'static str = "C15";
 
     fn rule() -> String {
-        "(i) proptest-generated directory specs with Ref columns (unsigned, and signed SRef, column bound, through Vow/Bound created before any entry is added, to the position of another entry of the same store): forward, backward and self references, chains, constant Ref columns (all rows reference one entry), sorted (1-3 keys) and unsorted stores, 0..600 entries and 2000..6000 entries (parallel sort and parallel index assignment). Oracle: model final positions (independent sort of the distinct keys): the value read back for a Ref column equals the final position of its target (real reader and independent decoder), and every Bound returned by add_entry reports the final position of its entry after finalisation. (ii) forests stored in a store sorted ON the reference itself (key = position of the parent, then a unique name; 1..120 nodes, chains and bushy trees, inserted parents-first, children-first or shuffled): the final order is a fixed point of the creator's re-sort loop, so the oracle is a validity predicate over what was stored: the identities form a permutation, every stored reference equals the final position of the parent, keys are strictly increasing, every Bound reports the final position, binary and linear lookup of (parent position, name) find the entry. Non-trivial = a sorted store in which at least one referenced entry moved from its insertion position; distinct by (graph classes, schema, size). (iii) trees whose roots carry a plain number in the reference column (plain and bound values mixed in one column); (iv) cross-store references: store A sorted on a unique key (1..30000 entries, inserted in order / reversed / shuffled), store B (sorted or not) with a column bound to entries of A (optionally only to entries inserted among the first 200), A added first: every value stored in B equals the final position in A of the entry it was bound to. A tree whose roots carry a plain number k > 0 need not have any order consistent with its own positions; the creator's loud refusal (Cannot sort entry store) is then accepted and counted (tree:refused-no-consistent-order), never with self-referring roots or roots carrying 0.".into()
+        "(i) proptest-generated directory specs with Ref columns (unsigned, and signed SRef, column bound, through Vow/Bound created before any entry is added, to the position of another entry of the same store): forward, backward and self references, chains, constant Ref columns (all rows reference one entry), sorted (1-3 keys) and unsorted stores, 0..600 entries and 2000..6000 entries (parallel sort and parallel index assignment). Oracle: model final positions (independent sort of the distinct keys): the value read back for a Ref column equals the final position of its target (real reader and independent decoder), and every Bound returned by add_entry reports the final position of its entry after finalisation. (ii) forests stored in a store sorted ON the reference itself (key = position of the parent, then a unique name; 1..120 nodes, chains and bushy trees, inserted parents-first, children-first or shuffled): the final order is a fixed point of the creator's re-sort loop, so the oracle is a validity predicate over what was stored: the identities form a permutation, every stored reference equals the final position of the parent, keys are strictly increasing, every Bound reports the final position, binary and linear lookup of (parent position, name) find the entry. Non-trivial = a sorted store in which at least one referenced entry moved from its insertion position; distinct by (graph classes, schema, size). (iii) trees whose roots carry a plain number in the reference column (plain and bound values mixed in one column); (iv) cross-store references: store A sorted on a unique key (1..30000 entries, inserted in order / reversed / shuffled), store B (sorted or not) with a column bound to entries of A (optionally only to entries inserted among the first 200), A added first: every value stored in B equals the final position in A of the entry it was bound to. A tree whose roots carry a plain number k > 0 need not have any order consistent with its own positions; the creator's loud refusal (Cannot sort entry store) is then accepted and counted (tree:refused-no-consistent-order), never with self-referring roots or roots carrying 0. Every second tree is kept in a store of boxed entries (EntryStore<_, _, Box<BasicEntry>>).".into()
     }
 
     fn cases(tier: Tier) -> u32 {
@@ -453,7 +467,7 @@ impl C15 {
     }
 
     fn required_classes_() -> Vec<&'static str> {
-        vec!["cross-store-reference", "cross-store:A>=2000", "tree:plain-and-bound-values-in-one-column", "tree:reference-in-sort-key", "tree-order:children-first", "kind:sref", "has-refs", "ref:forward", "ref:backward", "ref:self", "ref:chain", "sorted", "referenced-entry-moved", "entries:thousands", "ref:constant-column"]
+        vec!["cross-store-reference", "cross-store:A>=2000", "tree:plain-and-bound-values-in-one-column", "tree:reference-in-sort-key", "tree:boxed-entries", "tree-order:children-first", "kind:sref", "has-refs", "ref:forward", "ref:backward", "ref:self", "ref:chain", "sorted", "referenced-entry-moved", "entries:thousands", "ref:constant-column"]
     }
 
     fn run_(case: &C15Case, ctx: &Ctx) -> CaseResult {
